@@ -1,12 +1,12 @@
 ---------------------------- MODULE Trace_XState ----------------------------
 (* Trace validation of the real state machine against XState.                                  *)
 EXTENDS XState, Json
-VARIABLES l, div, devAll
+VARIABLES l, div, devAll, taint
 Trace == ndJsonDeserialize("trace.ndjson")
 NoDiv == [at |-> 0]
-tvars == <<vars, l, div, devAll>>
+tvars == <<vars, l, div, devAll, taint>>
 
-TInit == Init /\ l = 1 /\ div = NoDiv /\ devAll = {} /\ TLCSet(1, 1) /\ TLCSet(2, NoDiv) /\ TLCSet(3, {})
+TInit == Init /\ l = 1 /\ div = NoDiv /\ devAll = {} /\ taint = FALSE /\ TLCSet(1, 1) /\ TLCSet(2, NoDiv) /\ TLCSet(3, {})
 
 Has(ev, f) == f \in DOMAIN ev
 (* JSON arrays standing for sets are compared as sets *)
@@ -44,7 +44,7 @@ WalkCutsOK(ev) ==
          /\ Has(c, "sync") => \E e \in {SyncObs(rec)} : c.syncres = e.res /\ Norm(c.sync) = e.obs
 PrevCutsOK ==
   l = 1 \/ \E pe \in {Trace[l - 1]} :
-    (Has(pe, "cuts") /\ pe.op # "walk" /\ dev = {}) =>
+    (Has(pe, "cuts") /\ pe.op # "walk" /\ ~taint) =>
        \A i \in DOMAIN pe.cuts :
           \E c \in {pe.cuts[i]} :
              /\ Norm(c.obs) = Obs
@@ -62,16 +62,18 @@ ReplicaOK(ev) ==
 
 (* After a known deviation has changed an outcome the node is, by the finding itself, in a state the
    IDEAL design does not have; the rest of that behaviour is not judged (until the next reset). *)
-Tainted == dev # {}
+Tainted == taint
 TStep ==
   /\ l <= Len(Trace) /\ div = NoDiv
   /\ LET ev == Trace[l] IN
      /\ IF Tainted /\ ev.op # "reset" THEN UNCHANGED vars ELSE Act(ev)
-     /\ devAll' = devAll \cup dev' \cup (IF KF_PoolOrderAntiDep /\ ev.op = "mkblock" /\ Has(ev, "mined") /\ ~PoolOrderOK(ev.txs)
-                                            THEN {"KF_PoolOrderAntiDep"} ELSE {})
+     /\ LET orderDev == IF ~Tainted /\ KF_PoolOrderAntiDep /\ ev.op = "mkblock" /\ Has(ev, "mined") /\ ~PoolOrderOK(ev.txs)
+                         THEN {"KF_PoolOrderAntiDep"} ELSE {} IN
+        /\ devAll' = devAll \cup dev' \cup orderDev
+        /\ taint' = (ev.op # "reset" /\ (taint \/ dev' # {} \/ orderDev # {}))
      /\ div' = IF ~PrevCutsOK THEN [at |-> l - 1, tr |-> Trace[l - 1].tr, op |-> Trace[l - 1].op, expres |-> "-", actres |-> "-",
                                      exp |-> Obs, act |-> Trace[l - 1].cuts[1].obs, which |-> "cut"]
-               ELSE IF ev.op = "reset" \/ Tainted \/ dev' # {} THEN NoDiv
+               ELSE IF ev.op = "reset" \/ Tainted \/ taint' THEN NoDiv
                ELSE LET r == hist'[Len(hist')].res
                         okLive == Norm(ev.obs) = Obs'
                         okReopen == Has(ev, "robs") => Norm(ev.robs) = Obs'
